@@ -323,9 +323,15 @@ func runC32(c *fw.Ctx) {
 			c.Sample(map[string]any{"case": e.render(v), "result": class, "disagreement": sig})
 		}
 		if sig != "" {
-			// one class per (op, from-state, role-level disagreement set): the
+			// one class per (role-level disagreement, forced / non-forced op): the
 			// tokens name roles (inside / outside / prefix-sibling), not paths
-			fails.addHint(i, v, sig, fmt.Sprintf("%s from=%s: %s", c32Ops[v[3]], c32From[v[2]], hSigKinds(sig)))
+			opc := "non-forced op (Checkout, Reset Merge)"
+			if v[3] == 1 || v[3] == 2 {
+				opc = "forced op (Checkout Force, Reset Hard)"
+			}
+			for tok := range hSigTokens(sig) {
+				fails.addHint(i, v, sig, tok+" after "+opc)
+			}
 		}
 	})
 	c.Extra("refusals", refused)
